@@ -18,6 +18,13 @@ C03 - each phase only makes the kind of change it is documented to make.
                fixable True  =>  a real _fix_violation below rule.Rule.
   C03.literal  the case rules never reach a violation for a string/character literal or an extended
                identifier (guard before the checkers; shared with C01).
+  C03.caseid   proof (fail-closed, scope vsg/rules/case_utils.py): the value a case rule asks its fix to write is
+               the token's own value up to letter case.  A small symbolic evaluator over slices with linear
+               length facts (sa/casefold.py) proves, for every function stored in the dispatch tables dChecker
+               and dCase, on every path: prefix + word + suffix == value (mod case), expected = prefix +
+               case(word) + suffix, create_case_violation stores exactly that expected value, the value read is
+               the value of the token the fix writes (index agreement), and the whole-word exception list is the
+               lower-cased image of the configured list.  A function that can no longer be proved is reported.
 Does not decide: that deletions in whitespace phases delete only whitespace (a run-time fact about the
 region selected by analysis); per-input effect; user re-assignment of phase/fixable.
 """
@@ -34,10 +41,10 @@ from ..summaries import Summaries
 
 LEVEL = "other"
 META = {
-    "technique": "static analysis: static rule table (abstract interpretation of rule constructors) checked against a class->phase map; effect signatures of all _fix_violation providers (token construction, alias-tracked structural edits, value classification in a whitespace lattice) checked against a per-class policy; dominance facts for the fix gating; predicate evaluation of the case-rule literal guard",
+    "technique": "static analysis: static rule table (abstract interpretation of rule constructors) checked against a class->phase map; effect signatures of all _fix_violation providers (token construction, alias-tracked structural edits, value classification in a whitespace lattice) checked against a per-class policy; dominance facts for the fix gating; predicate evaluation of the case-rule literal guard; a symbolic evaluator over string slices with linear length facts that proves (fail-closed, scope case_utils.py) that the value a case rule writes equals the old value modulo letter case",
     "level_text": "Decides for each of the ~960 live rules - for all inputs, because it is a may-analysis of the fix code - which kinds of edit its fix can perform at all "
     "(construct which token classes, change list structure, write which kind of value) and compares that with the class the rule is documented in; "
-    "plus the gating facts that keep unfixable, disabled and warning rules from editing. What a permitted edit does to a particular input is not decided.",
+    "plus the gating facts that keep unfixable, disabled and warning rules from editing, plus a proof that the ~250 rules built on case_utils write the token's own text up to letter case (prefix/suffix/whole-word exceptions included). What a permitted edit of the other classes does to a particular input is not decided.",
     "level_note": "Trusted base: CPython ast, static rule table, over-approximating call graph, whitespace-expression lattice. Deletions are not classified (unknown what is deleted). "
     "docs/*.rst phase/group icons are not parsed; the rule_group base classes are taken as the documented class.",
 }
@@ -57,6 +64,7 @@ def run(ctx):
     r.rule("C03.effect", "fix effect signature within the policy of the rule's documented class")
     r.rule("C03.gating", "only enabled, error-type, fixable rules edit; fixable => real fix")
     r.rule("C03.literal", "case rules never flag literals / extended identifiers")
+    r.rule("C03.caseid", "case_utils: the value handed to the fix equals the token's value modulo letter case (proof)")
     r.explanation = (
         "For every live rule the providing _fix_violation is abstracted to the set of token classes it can construct, the structural list edits it can "
         "perform on (aliases of) the violation's token list, and the classified values it can write; the policy table maps the rule's group to what is allowed."
@@ -67,6 +75,7 @@ def run(ctx):
     _effects(r, p, rt, fx)
     _gating(r, p, cg, rt)
     literal_guard(r, p, "C03.literal")
+    _caseid(r, p)
     # the per-rule effect classes above describe what a fix does to the tokens it *selected*; that attribution is only
     # meaningful if the selection is made on a fresh index (shared with C18.remap): a stale index makes a case rule
     # rewrite whatever token now sits at the remembered position (e.g. a comment)
@@ -79,6 +88,115 @@ def run(ctx):
     if not scratch.findings:
         r.ok("C03.effect", "index-freshness", "every fix that can shift token positions is followed by an index rebuild (remap), so later rules select the tokens they name")
     return r
+
+
+def _caseid(r, p):
+    from ..casefold import Prover, prove_case_function, prove_checker
+
+    mod = p.modules.get("vsg.rules.case_utils")
+    if mod is None:
+        raise AnalysisError("vsg.rules.case_utils vanished")
+    pr = Prover(p, mod)
+    if sorted(v[:2] for v in pr.shapes.values()) != [("det", "prefix"), ("det", "suffix"), ("match", "prefix"), ("match", "suffix")]:
+        r.fail("C03.caseid", "case_utils:matchers", "the prefix/suffix detector and matcher functions are no longer recognisable as case-insensitive startswith/endswith loops: %s" % sorted(pr.shapes.items()), mod.path)
+    # dispatch tables: module-level  dChecker[a][b] = f  and  dCase[name]["check"] = f
+    checkers, casefns = {}, {}
+    for st in mod.tree.body:
+        if isinstance(st, ast.Assign) and len(st.targets) == 1 and isinstance(st.targets[0], ast.Subscript) and isinstance(st.value, ast.Name):
+            t = norm(st.targets[0])
+            if t.startswith("dChecker["):
+                checkers[t] = st.value.id
+            elif t.startswith("dCase[") and t.endswith("['check']"):
+                casefns[t] = st.value.id
+    if len(checkers) < 4 or len(casefns) < 9:
+        raise AnalysisError("dispatch tables of case_utils not found (%d checkers, %d case functions)" % (len(checkers), len(casefns)))
+    for slot, name in sorted(checkers.items()):
+        fi = pr.func(name)
+        if fi is None:
+            r.fail("C03.caseid", "case_utils:%s" % slot, "%s is not a function of case_utils" % name, mod.path)
+            continue
+        res = prove_checker(pr, fi)
+        bad = [t for ok, t in res if not ok]
+        if bad:
+            r.fail("C03.caseid", "%s:%s" % (fi.key, "value-identity"), "cannot prove that %s hands the case checker a prefix + word + suffix equal to the token's value modulo case (%d of %d paths): %s. A case rule could then write a different identifier" % (name, len(bad), len(res), bad[0]), fi.loc())
+        else:
+            r.ok("C03.caseid", fi.key, "%d path(s): prefix + word + suffix == value (mod case)" % len(res))
+    for slot, name in sorted(casefns.items()):
+        fi = pr.func(name)
+        if fi is None:
+            r.fail("C03.caseid", "case_utils:%s" % slot, "%s is not a function of case_utils" % name, mod.path)
+            continue
+        res = prove_case_function(pr, fi)
+        bad = [t for ok, t in res if not ok]
+        if bad:
+            r.fail("C03.caseid", "%s:%s" % (fi.key, "expected"), "%s: %s" % (name, bad[0]), fi.loc())
+        else:
+            r.ok("C03.caseid", fi.key, res[0][1], sample=False)
+    # create_case_violation stores the expected value and the index it was given
+    cv = pr.func("create_case_violation")
+    stores = {}
+    for n in walk_function(cv.node):
+        if isinstance(n, ast.Assign) and len(n.targets) == 1 and isinstance(n.targets[0], ast.Subscript) and isinstance(n.targets[0].slice, ast.Constant) and norm(n.targets[0].value) == "dAction":
+            stores[n.targets[0].slice.value] = norm(n.value)
+    if stores.get("value") == cv.params[1] and stores.get("index") == cv.params[3]:
+        r.ok("C03.caseid", cv.key, "dAction['value'] = expected value, dAction['index'] = index of the token it was read from")
+    else:
+        r.fail("C03.caseid", cv.key + ":stores", "create_case_violation stores %s (parameters are %s)" % (stores, cv.params), cv.loc())
+    # entry point: the value analysed is the value of token iIndex, and the dispatch passes it first
+    ent = pr.func("check_for_case_violation")
+    gv = pr.func("get_token_value")
+    ok_entry = gv is not None and any(isinstance(n, ast.Return) and norm(n.value) == "%s.get_tokens()[%s].get_value()" % (gv.params[0], gv.params[1]) for n in walk_function(gv.node))
+    disp = [n for n in walk_function(ent.node) if isinstance(n, ast.Call) and isinstance(n.func, ast.Subscript) and norm(n.func).startswith("dChecker[")]
+    src = [n for n in walk_function(ent.node) if isinstance(n, ast.Assign) and isinstance(n.value, ast.Call) and norm(n.value.func) == "get_token_value"]
+    if not (ok_entry and len(disp) == 1 and src and norm(disp[0].args[0]) == norm(src[0].targets[0]) and norm(src[0].value.args[1]) == "iIndex" and norm(disp[0].args[3]) == "iIndex" and norm(disp[0].args[-1]).startswith("dCase[self.case]")):
+        r.fail("C03.caseid", ent.key + ":entry", "check_for_case_violation no longer passes the value of token iIndex, iIndex itself and the configured case function to the dispatch", ent.loc())
+    else:
+        r.ok("C03.caseid", ent.key, "value of token iIndex -> dChecker[..][..](value, .., iIndex, .., dCase[self.case]['check'])")
+    exc = pr.func("check_for_exception")
+    texts = [norm(n) for n in walk_function(exc.node)]
+    if any("self.case_exceptions_lower.index(%s.lower())" % exc.params[0] in t for t in texts) and any(isinstance(n, ast.Call) and norm(n.func) == "create_case_violation" and norm(n.args[1]).startswith("self.case_exceptions[") for n in walk_function(exc.node)):
+        r.ok("C03.caseid", exc.key, "whole-word exception: expected = case_exceptions[i] with case_exceptions_lower[i] == value.lower()")
+    else:
+        r.fail("C03.caseid", exc.key + ":exception", "the whole-word exception is no longer looked up by the lower-cased value in the lower-cased list", exc.loc())
+    # every writer of case_exceptions_lower is lowercase_list(self.case_exceptions); every fix writes the index it read
+    n_w = 0
+    for fi in p.functions.values():
+        for n in walk_function(fi.node):
+            if isinstance(n, ast.Assign) and any(isinstance(t, ast.Attribute) and t.attr == "case_exceptions_lower" for t in n.targets):
+                n_w += 1
+                if norm(n.value) not in ("utils.lowercase_list(self.case_exceptions)", "[x.lower() for x in self.case_exceptions]"):
+                    r.fail("C03.caseid", "%s:case_exceptions_lower" % fi.key, "case_exceptions_lower = %s is not the lower-cased image of case_exceptions" % norm(n.value)[:60], fi.loc(n))
+    ll = p.functions.get("vsg.vhdlFile.utils:lowercase_list") or p.functions.get("vsg.rules.utils:lowercase_list")
+    if n_w < 5:
+        raise AnalysisError("writers of case_exceptions_lower not found")
+    callers = 0
+    for fi in p.functions.values():
+        if fi.cls is None:
+            continue
+        for n in walk_function(fi.node):
+            if isinstance(n, ast.Call) and norm(n.func).endswith("check_for_case_violation"):
+                callers += 1
+                idx = norm(n.args[5]) if len(n.args) > 5 else "0"
+                fix = fi.cls.find_method("_fix_violation")
+                single = {}
+                for x in walk_function(fix.node):
+                    if isinstance(x, ast.Assign) and len(x.targets) == 1 and isinstance(x.targets[0], ast.Name):
+                        single.setdefault(x.targets[0].id, []).append(x.value)
+
+                def expand(e):
+                    if isinstance(e, ast.Name) and len(single.get(e.id, ())) == 1 and isinstance(single[e.id][0], ast.Subscript):
+                        return norm(single[e.id][0])
+                    return norm(e)
+
+                recv = [expand(x.func.value) for x in walk_function(fix.node) if isinstance(x, ast.Call) and isinstance(x.func, ast.Attribute) and x.func.attr == "set_value"]
+                want = "lTokens[0]" if idx == "0" else "lTokens[dAction['index']]"
+                kk = "%s:index-agreement" % fi.key
+                if recv and all(x == want for x in recv):
+                    r.ok("C03.caseid", kk, "analysis reads token %s, fix writes %s" % (idx, want))
+                else:
+                    r.fail("C03.caseid", kk, "analysis computes the expected value from token %s but the fix writes %s" % (idx, recv), fix.loc())
+    if callers < 2:
+        raise AnalysisError("callers of check_for_case_violation not found")
 
 
 def _top_group(e):
@@ -362,6 +480,19 @@ def _const_strs(a):
 
 
 VARIANTS = [
+    Variant("C03", "prefix and suffix exceptions matched on the whole value (overlap writes a longer name)", "fire",
+            [("vsg/rules/case_utils.py", "        sActualPrefix = extract_prefix(sObjectValue, sDesiredPrefix)\n        sConstant = remove_prefix(sObjectValue, sActualPrefix)\n        if suffix_detected(sConstant, self.suffix_exceptions):\n            sDesiredSuffix = get_matched_suffix(sConstant, self.suffix_exceptions)\n            sActualSuffix = extract_suffix(sConstant, sDesiredSuffix)\n            sConstant = remove_suffix(sConstant, sActualSuffix)\n",
+              "        sDesiredSuffix = get_matched_suffix(sObjectValue, self.suffix_exceptions)\n        sConstant = remove_suffix(remove_prefix(sObjectValue, sDesiredPrefix), sDesiredSuffix)\n")], rule="C03.caseid"),
+    Variant("C03", "lower-case checker drops the suffix exception", "fire",
+            [("vsg/rules/case_utils.py", "    sExpectedValue = sPrefix + sWord.lower() + sSuffix\n    if not sActualValue == sExpectedValue:", "    sExpectedValue = sPrefix + sWord.lower()\n    if not sActualValue == sExpectedValue:")], rule="C03.caseid"),
+    Variant("C03", "suffix removed by keeping as many characters as the suffix has", "fire",
+            [("vsg/rules/case_utils.py", "def remove_suffix(sString, sSuffix):\n    return sString[0 : len(sString) - len(sSuffix)]", "def remove_suffix(sString, sSuffix):\n    return sString[0 : len(sSuffix)]")], rule="C03.caseid"),
+    Variant("C03", "twin: two slicing slips that cancel (suffix taken from the front, removed by its length)", "silent",
+            [("vsg/rules/case_utils.py", "def extract_suffix(sString, sSuffix):\n    return sString[len(sString) - len(sSuffix) :]", "def extract_suffix(sString, sSuffix):\n    return sString[len(sSuffix) :]"),
+             ("vsg/rules/case_utils.py", "def remove_suffix(sString, sSuffix):\n    return sString[0 : len(sString) - len(sSuffix)]", "def remove_suffix(sString, sSuffix):\n    return sString[0 : len(sSuffix)]")]),
+    Variant("C03", "twin: prefix removed with the matched exception's length directly", "silent",
+            [("vsg/rules/case_utils.py", "    if prefix_detected(sObjectValue, self.prefix_exceptions):\n        sDesiredPrefix = get_matched_prefix(sObjectValue, self.prefix_exceptions)\n        sActualPrefix = extract_prefix(sObjectValue, sDesiredPrefix)\n        sConstant = remove_prefix(sObjectValue, sActualPrefix)\n\n    return fCheck(sObjectValue, sDesiredPrefix, sConstant, \"\"",
+              "    if prefix_detected(sObjectValue, self.prefix_exceptions):\n        sDesiredPrefix = get_matched_prefix(sObjectValue, self.prefix_exceptions)\n        sConstant = sObjectValue[len(sDesiredPrefix) :]\n\n    return fCheck(sObjectValue, sDesiredPrefix, sConstant, \"\"")]),
     Variant("C03", "indent fix drops the token after the whitespace", "fire",
             [("vsg/rules/token_case.py", "            lTokens[0].set_value(dAction[\"value\"])\n            oViolation.set_tokens(lTokens)", "            lTokens[0].set_value(dAction[\"value\"])\n            oViolation.set_tokens(lTokens[:1])")],
             rule="C03.effect", key="token_case"),
